@@ -14,6 +14,7 @@ import (
 	"strconv"
 	"strings"
 	"sync"
+	"sync/atomic"
 	"testing/synctest"
 
 	"github.com/zenon-network/go-zenon/verifrt"
@@ -66,6 +67,7 @@ type Scheduler struct {
 	lastTask string
 	panics   []any
 	names    map[uint64]string
+	aborting atomic.Bool
 }
 
 func New(r *simrt.Run) *Scheduler {
@@ -81,9 +83,11 @@ func (s *Scheduler) Go(name string, f func()) {
 	go func() {
 		defer func() {
 			if p := recover(); p != nil {
-				s.mu.Lock()
-				s.panics = append(s.panics, fmt.Sprintf("task %s: %v", name, p))
-				s.mu.Unlock()
+				if _, ok := p.(DeadlockAbort); !ok {
+					s.mu.Lock()
+					s.panics = append(s.panics, fmt.Sprintf("task %s: %v", name, p))
+					s.mu.Unlock()
+				}
 			}
 			s.mu.Lock()
 			s.active--
@@ -115,7 +119,15 @@ func (s *Scheduler) hook(try func() bool, site string) {
 	s.list = append(s.list, p)
 	s.mu.Unlock()
 	<-p.ch
+	if s.aborting.Load() && p.task != "helper" {
+		// a real deadlock was found: letting this task walk into sync.Mutex.Lock would freeze the bubble for
+		// ever (a mutex wait is invisible to synctest); it unwinds instead, releasing what it holds
+		panic(DeadlockAbort{})
+	}
 }
+
+// DeadlockAbort unwinds the tasks of a schedule in which no parked task can ever take its lock.
+type DeadlockAbort struct{}
 
 // Run installs the hook, drives all tasks to completion and removes the hook.
 // It returns the panics of tasks (as strings).
@@ -201,7 +213,11 @@ func (s *Scheduler) Run() []any {
 		}
 	}
 	if s.Deadlock != "" {
-		// release everything so that the run can end
+		// release everything so that the run can end; after a real lock cycle the tasks unwind (see hook),
+		// after an exhausted step budget they simply run on unscheduled
+		if !strings.HasPrefix(s.Deadlock, "step budget") {
+			s.aborting.Store(true)
+		}
 		verifrt.Hook = nil
 		s.mu.Lock()
 		for _, p := range s.list {
